@@ -129,6 +129,33 @@ def prelude_text_check():
     return True, "ok"
 
 
+def fingerprint_file(path):
+    try:
+        src = open(path).read()
+    except Exception:
+        return None
+    if path.endswith(".py"):
+        src = re.sub(r"#[^\n]*", "", src)
+    else:
+        src = re.sub(r"//[^\n]*", "", src)
+    return hashlib.sha256(norm_ws(src).encode()).hexdigest()[:20]
+
+
+def source_drift(prop):
+    """files anchored by the property whose (comment- and whitespace-normalised) text differs from the text the model was last
+    validated against (model_fingerprints.json). Drift is NOT an alarm: it only makes the check spend more generator effort."""
+    fp_path = os.path.join(VERIF, "model_fingerprints.json")
+    if not os.path.exists(fp_path):
+        return []
+    fps = json.load(open(fp_path))
+    files = []
+    for l in open(os.path.join(VERIF, "properties.jsonl")):
+        d = json.loads(l)
+        if d["id"] == prop:
+            files = d["anchors"]["files"]
+    return [f for f in files if f in fps and fingerprint_file(os.path.join(REPO, f)) != fps[f]]
+
+
 def lake_build(targets):
     rc, out = sh(["lake", "build"] + targets, cwd=LEAN, timeout=3600)
     return rc == 0, out
@@ -430,6 +457,7 @@ class Result:
         self.assumptions = []
         self.exhaustive = False
         self.notes = []
+        self.escalate = 1
 
     def count(self, key, n=1):
         self.coverage[key] = self.coverage.get(key, 0) + n
